@@ -353,7 +353,7 @@ pub fn main(args: &[String]) -> i32 {
         "samples": samples,
         "regress_replayed": n_regress,
         "rule": "queue-id lab: random sequences (4-24 operations) of queue creation, queue removal (forced or not) and restarts - optionally losing the last 1-3 journal records - through the real autoalloc state, JournalWriter, StateRestorer and the re-adding of restored queues with their ids; every id issued is compared with all queue ids the journal mentions at that moment; non-trivial = an id was issued after a restart",
-        "minima": {"queue_ids_issued_after_restart": 500, "restarts_after_queue_removal": 300, "restarts_with_lost_tail": 100},
+        "minima": {"queue_ids_issued_after_restart": 150, "restarts_after_queue_removal": 100, "restarts_with_lost_tail": 40},
         "assumptions": [
             "queue-id lab: queues are re-added after a restart through tako/hq hooks that restate the loop in bootstrap::start_server (AutoAllocState::new(restored counter), add_queue(queue, Some(id)) per restored queue)",
             "queue-id lab: the batch system handler is a stub (no allocation is ever submitted), so only queue events are in these journals"
